@@ -44,10 +44,12 @@ Definition with_nsmap x d := {| n_id := n_id d; n_name := n_name d; n_content :=
   n_prefix := n_prefix d; n_attrs := n_attrs d; n_extras := n_extras d; n_nsmap := x |}.
 
 (** one key added or its value changed ([dict_set] with a value the key did not have),
-    or one present key removed *)
+    one present key removed, or one present key replaced by an absent one *)
 Inductive dict_edit : list (pystr * pystr) -> list (pystr * pystr) -> Prop :=
 | DE_set m k v : assoc k m <> Some v -> dict_edit m (dict_set k v m)
-| DE_del m k : assoc k m <> None -> dict_edit m (dict_del k m).
+| DE_del m k : assoc k m <> None -> dict_edit m (dict_del k m)
+| DE_rekey m k k' v : assoc k m <> None -> assoc k' m = None ->      (* a key replaced by another key *)
+    dict_edit m (dict_set k' v (dict_del k m)).
 
 Inductive nd_edit : nd -> nd -> Prop :=
 | NE_name d x : x <> n_name d -> nd_edit d (with_name x d)
